@@ -383,6 +383,8 @@ def verify_mapper_method(mc: MapperContract, node_cls, specs, rlimit=20_000_000,
         kw_val = dstar if dstar is not None else PyDict({})
         if mc.setup:
             mc.setup(I, selfv, expr)
+            I.tracked = [t for t in I.tracked if t[0] is not selfv]
+            I.track(selfv)
 
         def rec_handler(I, self_obj, args, kwargs, rstar, rdstar, node):
             x = args[0]
